@@ -1,23 +1,27 @@
 #!/bin/bash
 # Must-fail corpus: every patch in selftest/mutants/*.patch (first line: "# property=Cnn expect=<substring of a failing obligation name>")
 # is applied to a scratch copy of /repo; the property's quick check must exit 1 and name the expected obligation.
-# Usage: selftest/run.sh [name-filter]
+# Usage: selftest/run.sh [name-filter]     (SELFTEST_JOBS=n runs n patches at a time, default 4)
 cd "$(dirname "$0")/.."
 export GOFLAGS=-mod=mod GOPROXY=off GOSUMDB=off GOTOOLCHAIN=local
-pass=0; fail=0
-for p in selftest/mutants/*${1}*.patch; do
+one() {
+  p=$1
   hdr=$(head -1 "$p"); prop=$(echo "$hdr" | sed -n 's/.*property=\([A-Z0-9]*\).*/\1/p'); expect=$(echo "$hdr" | sed -n 's/.*expect=\(.*\)$/\1/p')
   scratch=$(mktemp -d); vscratch=$(mktemp -d)
-  git -C /repo worktree add --detach -q "$scratch/repo" HEAD 2>/dev/null || { echo "cannot create worktree"; exit 2; }
+  git -C /repo worktree add --detach -q "$scratch/repo" HEAD 2>/dev/null || { echo "SELFTEST MISS $p (cannot create worktree)"; return; }
   # uncommitted contract edits in /repo are part of the tree under test
   (cd /repo && git diff HEAD) | (cd "$scratch/repo" && git apply -q 2>/dev/null)
   for f in $(cd /repo && git ls-files --others --exclude-standard); do mkdir -p "$scratch/repo/$(dirname $f)"; cp "/repo/$f" "$scratch/repo/$f"; done
-  if ! (cd "$scratch/repo" && git apply "$OLDPWD/$p" 2>/dev/null); then echo "SELFTEST $p: patch does not apply"; fail=$((fail+1)); git -C /repo worktree remove --force "$scratch/repo"; rm -rf "$scratch" "$vscratch"; continue; fi
+  if ! (cd "$scratch/repo" && git apply "$OLDPWD/$p" 2>/dev/null); then echo "SELFTEST MISS $p (patch does not apply)"; git -C /repo worktree remove --force "$scratch/repo"; rm -rf "$scratch" "$vscratch"; return; fi
   for f in props.json known_findings.json contracts-lib lemmas bounded oracles hints; do [ -e "$f" ] && ln -s "$PWD/$f" "$vscratch/$f"; done
   out=$(./bin/govc check -repo "$scratch/repo" -verif "$vscratch" -prop "$prop" -tier quick 2>&1); code=$?
-  if [ $code -eq 1 ] && echo "$out" | grep -q "VIOLATION.*$expect"; then echo "SELFTEST ok   $p ($prop: $(echo "$out" | grep -c VIOLATION) violation(s))"; pass=$((pass+1));
-  else echo "SELFTEST MISS $p (exit $code, expected obligation ~ $expect)"; echo "$out" | tail -5 | sed 's/^/    /'; fail=$((fail+1)); fi
+  if [ $code -eq 1 ] && echo "$out" | grep -q "VIOLATION.*$expect"; then echo "SELFTEST ok   $p ($prop: $(echo "$out" | grep -c VIOLATION) violation(s))";
+  else echo "SELFTEST MISS $p (exit $code, expected obligation ~ $expect)"; echo "$out" | tail -5 | sed 's/^/    /'; fi
   git -C /repo worktree remove --force "$scratch/repo"; rm -rf "$scratch" "$vscratch"
-done
+}
+export -f one
+ls selftest/mutants/*${1}*.patch | xargs -P ${SELFTEST_JOBS:-4} -I{} bash -c 'one {}' > /tmp/selftest.$$.out 2>&1
+cat /tmp/selftest.$$.out
+pass=$(grep -c '^SELFTEST ok' /tmp/selftest.$$.out); fail=$(grep -c '^SELFTEST MISS' /tmp/selftest.$$.out); rm -f /tmp/selftest.$$.out
 echo "selftest: $pass caught, $fail missed"
-[ $fail -eq 0 ]
+[ "$fail" -eq 0 ]
